@@ -3,6 +3,8 @@
 package main
 
 import (
+	"io"
+	"log"
 	"bytes"
 	"encoding/json"
 	"fmt"
@@ -13,6 +15,7 @@ import (
 	"strings"
 
 	"github.com/google/licenseclassifier/v2/assets"
+	"github.com/google/licenseclassifier/v2/tools/identify_license/backend"
 )
 
 type cliFile struct {
@@ -69,8 +72,12 @@ func genCliTree(r *rng, all []corpusDoc) []cliFile {
 			data = bytes.TrimRight(d.text, "\n")
 		case 3: // CRLF
 			data = bytes.ReplaceAll(d.text, []byte("\n"), []byte("\r\n"))
-		case 4: // very long first line, then the license
-			data = append(append(bytes.Repeat([]byte("x"), 66000+r.intn(9000)), '\n'), d.text...)
+		case 4: // very long first line (beyond 64 KiB, sometimes beyond 1 MiB), then the license
+			ll := 66000 + r.intn(9000)
+			if r.chance(1, 3) {
+				ll = 1<<20 + r.intn(5000)
+			}
+			data = append(append(bytes.Repeat([]byte("x"), ll), '\n'), d.text...)
 		case 5: // two licenses and a notice
 			d2 := all[r.intn(len(all))]
 			if len(d2.text) > 8000 {
@@ -124,6 +131,37 @@ func cmdC19(seed uint64, tier, outdir string, binPath string) {
 	}
 	vw := mustCreate(outdir, "c19.verdicts")
 	cw := mustCreate(outdir, "c19.cases")
+	// the worker pool of the backend, stressed in child processes that run side by side
+	{
+		nchild, ncalls := 4, "3000"
+		if tier == "thorough" {
+			nchild, ncalls = 8, "20000"
+		}
+		type res struct {
+			out []byte
+			err error
+		}
+		ch := make(chan res, nchild)
+		for k := 0; k < nchild; k++ {
+			go func() {
+				out, err := exec.Command(os.Args[0], "c19stress", ncalls).CombinedOutput()
+				ch <- res{out, err}
+			}()
+		}
+		for k := 0; k < nchild; k++ {
+			x := <-ch
+			cw.printf("ClassifyLicenses x%s in a child process (pools of 1 and 2 tasks, 1-3 tiny files)\n", ncalls)
+			if x.err != nil {
+				st := string(x.out)
+				if i := strings.Index(st, "panic:"); i >= 0 {
+					st = st[i:]
+				}
+				vw.printf("VIOL - backend.ClassifyLicenses crashed the process: %v: %s\n", x.err, trunc(strings.ReplaceAll(st, "\n", " | "), 300))
+			} else {
+				vw.printf("OK 1\n")
+			}
+		}
+	}
 	mw := mustCreate(outdir, "cli.cases") // for the model
 	mi := mustCreate(outdir, "cli.impl")
 	lib, err := assets.DefaultClassifier()
@@ -345,4 +383,29 @@ func trunc(s string, n int) string {
 func lastLine(s string) string {
 	ls := strings.Split(strings.TrimRight(s, "\n"), "\n")
 	return ls[len(ls)-1]
+}
+
+// cmdC19Stress: ClassifyLicenses called many times in this process with a pool of one or two tasks on tiny files.
+// A panic in one of its goroutines ("send on closed channel") kills the process: the parent looks at the exit status.
+func cmdC19Stress(n int) {
+	log.SetOutput(io.Discard)
+	be, err := backend.New()
+	if err != nil {
+		panic(err)
+	}
+	dir, err := os.MkdirTemp("", "verif-c19s-")
+	if err != nil {
+		panic(err)
+	}
+	defer os.RemoveAll(dir)
+	var files []string
+	for i := 0; i < 3; i++ {
+		p := filepath.Join(dir, fmt.Sprintf("f%d.txt", i))
+		os.WriteFile(p, []byte("x\n"), 0o644)
+		files = append(files, p)
+	}
+	for i := 0; i < n; i++ {
+		be.ClassifyLicenses(1+i%2, files[:1+i%3], false)
+	}
+	fmt.Println("stress done")
 }
